@@ -255,7 +255,10 @@ class ContainerModel(amod.AssignModel):
         if tag == "any":
             return self.any()
         if tag == "union":
-            return self.unite([self.value_of(s) for s in spec[1]])
+            u = self.unite([self.value_of(s) for s in spec[1]])
+            if u._kind == "MultiValuedValue" and len(u._attrs["vals"]) >= 10:
+                u = self.with_known_subvals(u)  # what MultiValuedValue.__post_init__ does for large unions
+            return u
         if tag in ("list", "set", "frozenset", "seq", "iter"):
             typ = {"list": list, "set": set, "frozenset": frozenset, "seq": CA.Sequence, "iter": CA.Iterable}[tag]
             return self.generic(typ, [self.value_of(spec[1])])
@@ -379,6 +382,9 @@ def type_specs() -> Iterator[Any]:
         ("tuple", (("cls", int), ("tuple", (("cls", int), ("cls", str))))), ("seq", ("seq", ("cls", int))), ("iter", ("iter", ("cls", object))),
         ("union", (("list", ("cls", int)), ("cls", type(None)))), ("list", ("union", (("cls", int), ("cls", type(None))))), ("tuple*", ("tuple", ())), ("list", ("tuple", ())),
         ("tuple", (("tuple", ()), ("tuple", ()))), ("seq", ("cls", str)), ("iter", ("cls", str)),
+        # unions of ten or more members take the known-literal fast path of MultiValuedValue.can_assign
+        ("union", tuple(("lit", i) for i in range(9)) + (("lit", "a"), ("cls", str))),
+        ("union", tuple(("lit", i) for i in range(10)) + (("list", ("cls", int)),)),
     ]
     yield from nested
 
